@@ -6,7 +6,7 @@ def plan(ctx):
     rnd = random.Random(ctx.seed or 13)
     thorough = ctx.tier == "thorough"
     obs = []
-    shapes = [(RS, 2, 1, 1), (RS, 2, 2, 2), (ISAV, 2, 1, 1), (ISAC, 2, 1, 1)] + ([(RS, 3, 1, 1), (RS, 3, 2, 2), (ISAV, 3, 2, 2)] if thorough else [])
+    shapes = [(RS, 2, 1, 1), (RS, 2, 2, 2), (ISAV, 2, 1, 1)] + ([(ISAC, 2, 1, 1), (RS, 3, 1, 1), (RS, 3, 2, 2), (ISAV, 3, 2, 2)] if thorough else [])
     for be, k, m, hd in shapes:
         n = k + m
         unit = k * WB[be]
@@ -25,13 +25,15 @@ def plan(ctx):
             if be == RS and (k, m) == (2, 1):
                 obs.append(l2_ob(be, k, m, hd, list(range(n)), ln=unit + 1, mode=2, dest=d, expect=-1, tag="recoob-all"))
     # back-end reconstruct for larger shapes (every erased index of every listed set is reconstructed in be_l1.c)
-    for be, k, m, hd in [(RS, 4, 2, 2), (RS, 5, 3, 3), (ISAV, 4, 2, 2), (ISAC, 4, 3, 3), (XOR, 3, 3, 3), (XOR, 6, 6, 4)] + ([(RS, 8, 4, 4), (ISAV, 8, 4, 4), (XOR, 10, 5, 3), (XOR, 12, 6, 4)] if thorough else []):
+    for be, k, m, hd in [(RS, 4, 2, 2), (ISAV, 3, 2, 2), (XOR, 3, 3, 3), (XOR, 6, 6, 4)] + ([(RS, 5, 3, 3), (ISAV, 4, 2, 2), (ISAC, 4, 3, 3), (RS, 8, 4, 4), (ISAV, 8, 4, 4), (XOR, 10, 5, 3), (XOR, 12, 6, 4)] if thorough else []):
         n = k + m
         tol = hd - 1 if be == XOR else m
-        sets = list(esets(n, 1, tol))
-        if len(sets) > 32:
-            sets = rnd.sample(sets, 32 if not thorough else 128)
-        for i, ch in enumerate(chunks(sets, 3)):
+        sets = list(esets(n, 1, min(tol, 2)))
+        if len(sets) > 16:
+            sets = rnd.sample(sets, 8 if not thorough else 64)
+        if tol > 2:
+            sets += rnd.sample(list(esets(n, tol, tol)), 2 if not thorough else 8)
+        for i, ch in enumerate(chunks(sets, 1)):
             obs.append(be_l1_ob(be, k, m, hd, ch, tag="l1rec", idx=i, timeout=1500))
     return {"obs": obs,
             "assumptions": ["reconstructed fragment compared byte for byte (header, both checksums, payload) with the independent serializer's fragment for the same data",
